@@ -265,3 +265,14 @@ def replay(ctx, path):
         shutil.rmtree(tmpdir, ignore_errors=True)
     print("replay: %s" % ([x.what for x in v[:3]] or "property holds on this file"))
     return 1 if v else 0
+
+
+def corpus(ctx, entry):
+    tmpdir = tempfile.mkdtemp(prefix="nptdms_verif_c03_")
+    old = ctx.tier
+    ctx.tier = "thorough"
+    try:
+        return check_file(ctx, ctx.get_model() if ctx.build_ok else None, ctx.nptdms(), bytes.fromhex(entry["replay"]["file"]), tmpdir, dict(paths=0, model_ops=0))
+    finally:
+        ctx.tier = old
+        shutil.rmtree(tmpdir, ignore_errors=True)
